@@ -32,6 +32,7 @@ type GhostDecl struct {
 type LoopSpec struct {
 	Ord        int
 	Invariants []*Clause
+	Assumes    []*Clause
 	Decreases  *Clause
 	Unroll     int // exact unrolling of constant-trip loops
 	Bounded    bool // bounded instance search: iterations beyond Unroll are cut off, not checked
@@ -115,6 +116,7 @@ type Contracts struct {
 	Assumptions []string // trusted/abstract/etc. scan results
 	dupTrusted  [][2]*FuncContract
 	Tables      map[string]bool // "pkgpath.name" of package-level tables
+	Embedded    []string        // "pkgpath.Type.field": struct fields modelled as objects of their own
 }
 
 // CheckDuplicates verifies that repeated trusted contracts carry the same clauses.
@@ -146,7 +148,7 @@ var clauseKW = map[string]bool{
 	"func": true, "spec": true, "lemma": true, "axiom": true, "trusted": true, "mode": true, "props": true,
 	"requires": true, "ensures": true, "modifies": true, "loop": true, "inline": true,
 	"pure": true, "nullable": true, "may_alias": true, "panics": true, "wraps": true,
-	"decoder": true, "abstract": true, "ghost": true, "terminates": true, "uninterp": true, "at": true, "opaque": true, "def": true, "table": true, "anymode": true, "uses": true,
+	"decoder": true, "abstract": true, "ghost": true, "terminates": true, "uninterp": true, "at": true, "opaque": true, "def": true, "table": true, "anymode": true, "uses": true, "embedded": true,
 }
 
 var reTag = regexp.MustCompile(`^(\w+)\[([A-Z0-9, ]+)\]`)
@@ -296,6 +298,11 @@ func (cs *Contracts) ParseContractFile(path, pkgPath string) error {
 			sf.EntryState = entry
 			cs.Specs[pkgPath+"."+sf.Name] = sf
 			cur = nil
+		case "embedded":
+			for _, n := range strings.Fields(strings.ReplaceAll(rest, ",", " ")) {
+				cs.Embedded = append(cs.Embedded, pkgPath+"."+n)
+			}
+			cur = nil
 		case "table":
 			for _, n := range strings.Fields(strings.ReplaceAll(rest, ",", " ")) {
 				cs.Tables[pkgPath+"."+n] = true
@@ -424,6 +431,15 @@ func (cs *Contracts) ParseContractFile(path, pkgPath string) error {
 						c.Label = fmt.Sprintf("inv#%d", len(ls.Invariants))
 					}
 					ls.Invariants = append(ls.Invariants, c)
+				case "assume":
+					// a fact taken for granted at the loop head (no obligation is generated); it is listed
+					// among the assumptions of every property the function serves
+					c, err := mkClause("assume")
+					if err != nil {
+						return err
+					}
+					c.used = 1
+					ls.Assumes = append(ls.Assumes, c)
 				case "decreases":
 					c, err := mkClause("decreases")
 					if err != nil {
